@@ -1,30 +1,42 @@
 ------------------------------- MODULE NotifyMC -------------------------------
 EXTENDS Notify
-CONSTANTS MaxDepth
-VARIABLES cfg, val, last, depth
-vars == <<cfg, val, last, depth>>
-Cfgs == [mode : Modes, kind : Kinds, typed : BOOLEAN]
-Init == cfg \in Cfgs /\ val = "unset" /\ last = [op |-> "init"] /\ depth = 0
+CONSTANTS MaxDepth,
+          AllRegistered     \* TRUE: every run-time mechanism registered throughout (case enumeration); FALSE: reg / unreg are operations
+VARIABLES cfg, val, regs, mat, last, depth
+vars == <<cfg, val, regs, mat, last, depth>>
+Cfgs == [mode : Modes, kind : Kinds, typed : BOOLEAN, shape : Shapes]
+Init == /\ cfg \in Cfgs /\ val = "unset" /\ last = [op |-> "init"] /\ depth = 0
+        /\ regs = (IF AllRegistered THEN Dynamic ELSE {}) /\ mat = AllRegistered
 Do(op, v) ==
-  LET r == Apply(op, cfg, val, v) IN
+  LET r == Apply(op, cfg, val, v, regs) IN
   /\ val' = r.val
-  /\ last' = [op |-> op, v |-> v, cfg |-> cfg, pre |-> val, post |-> r.val, exc |-> r.exc, calls |-> r.calls]
+  /\ regs' = RegsAfter(op, regs, v)
+  /\ mat' = (mat \/ (op = "reg" /\ v \in TraitLevel))       \* the trait's own notifier list, once created, stays
+  /\ last' = [op |-> op, v |-> v, cfg |-> cfg, pre |-> val, post |-> r.val, exc |-> r.exc, calls |-> r.calls, regs |-> regs, mat |-> mat]
   /\ depth' = depth + 1 /\ UNCHANGED cfg
-Next == depth < MaxDepth /\ (\E v \in Tokens : Do("assign", v) \/ Do("read", "none") \/ Do("delete", "none"))
+Next == depth < MaxDepth /\
+        \/ \E v \in Tokens : Do("assign", v) \/ Do("setq", v) \/ Do("setq2", v)
+        \/ Do("read", "none") \/ Do("delete", "none")
+        \/ ~AllRegistered /\ \E m \in Dynamic : IF m \in regs THEN Do("unreg", m) ELSE Do("reg", m)
 Spec == Init /\ [][Next]_vars
 
 \* ---- C02 as TLC decides it
+Reg(m) == Registered(cfg, last.regs, m)
 IsAssign == last.op = "assign" /\ last.exc = "" /\ cfg.kind = "trait"
-\* every mechanism is called exactly once iff the assignment is a change in the property's sense
+\* every registered handler is called exactly once iff the assignment is a change in the property's sense; nobody else is
 ExactlyOnce == IsAssign =>
-  \A m \in Mechs : Len(last.calls[m]) = (IF IsChange(cfg.mode, Readable(last.pre), last.v) THEN 1 ELSE 0)
+  \A m \in Mechs : Len(last.calls[m]) = (IF Reg(m) /\ IsChange(cfg.mode, Readable(last.pre), last.v) THEN 1 ELSE 0)
 \* truthful old/new: what was readable before, what is readable after
 Truthful == IsAssign => \A m \in Mechs : \A k \in 1..Len(last.calls[m]) :
                            last.calls[m][k] = <<Readable(last.pre), Readable(last.post)>>
-\* all mechanisms see the same sequence
-SameSequence == last.op # "init" => \A m1, m2 \in Mechs : last.calls[m1] = last.calls[m2]
-RejectedSilent == last.op # "init" /\ last.exc # "" => last.post = last.pre /\ last.calls = NoCalls
+\* all registered mechanisms see the same sequence
+SameSequence == last.op # "init" => \A m1, m2 \in {m \in Mechs : Reg(m)} : last.calls[m1] = last.calls[m2]
+UnregisteredSilent == last.op # "init" => \A m \in Mechs : ~Reg(m) => last.calls[m] = <<>>
+RejectedSilent == last.op # "init" /\ last.exc # "" /\ last.op # "setq2" => last.post = last.pre /\ last.calls = NoCalls
+QuietSilent == last.op \in {"setq", "setq2", "reg", "unreg"} => last.calls = NoCalls
 DefaultReadSilent == last.op = "read" => last.calls = NoCalls
 EventAlways == last.op = "assign" /\ cfg.kind = "event" /\ last.exc = "" =>
-                 \A m \in Mechs : last.calls[m] = <<<<"undef", last.v>>>>
+                 \A m \in Mechs : last.calls[m] = (IF Reg(m) THEN <<<<"undef", last.v>>>> ELSE <<>>)
+\* the dispatch guard of the code never hides a registered handler
+GuardTransparent == \A m \in Mechs : Registered(cfg, regs, m) => HasNotifiers(cfg, regs)
 =============================================================================
